@@ -122,9 +122,17 @@ def txt_text(rng, data):
     return bytes(out)
 
 
+def numtxt(rng, n):
+    """A number as decimal text, now and then with leading zeros (up to 14 digits in all: the value counts, not the digits)."""
+    t = b"%d" % n
+    if rng.random() < 0.12:
+        t = t.rjust(rng.choice([len(t) + 1, 10, 11, 12, 14]), b"0")
+    return t
+
+
 def fields(rng, r):
     """The text of a record as a list of fields: [name, ttl, class, type, rdata...]."""
-    f = [dotted(r.name, r.name_trailing), b"%d" % r.ttl, kw(rng, b"IN"), kw(rng, r.t.encode())]
+    f = [dotted(r.name, r.name_trailing), numtxt(rng, r.ttl), kw(rng, b"IN"), kw(rng, r.t.encode())]
     if r.t == "A":
         f.append(b".".join(b"%d" % x for x in r.ip))
     elif r.t == "AAAA":
@@ -134,11 +142,11 @@ def fields(rng, r):
     elif r.t == "TXT":
         f.append(txt_text(rng, r.txt))
     elif r.t == "MX":
-        f += [b"%d" % r.pref, dotted(r.target, r.target_trailing)]
+        f += [numtxt(rng, r.pref), dotted(r.target, r.target_trailing)]
     elif r.t == "SOA":
         soa = bytearray(b"(")
         for n in r.nums:
-            soa += bytes(rng.choice(b" \t\n") for _ in range(rng.randint(1, 2))) + b"%d" % n
+            soa += bytes(rng.choice(b" \t\n") for _ in range(rng.randint(1, 2))) + numtxt(rng, n)
         soa += bytes(rng.choice(b" \t\n") for _ in range(rng.randint(0, 2))) + b")"
         f += [dotted(r.ns), dotted(r.contact), bytes(soa)]
     elif r.t == "DS":
